@@ -12,6 +12,7 @@ type stratSpec struct {
 	vol    bool // reads volume
 	nonlin bool
 	noDflt bool // default configuration too heavy for the quick tier
+	noRule bool // compound / decorator over real strategies: decision function is C07's subject
 }
 
 var stratSpecs = []stratSpec{
@@ -48,6 +49,14 @@ var stratSpecs = []stratSpec{
 	{name: "Tsi", cfgs: [][3]int{{1, 2, 3}, {2, 3, 2}}, nonlin: true},
 	{name: "Vwma", cfgs: [][3]int{{2, 0, 0}, {3, 0, 0}}, vol: true},
 	{name: "WeightedClose", cfgs: [][3]int{{2, 0, 0}, {3, 0, 0}}},
+	// compounds and decorators over the real MACD(cfg) and RSI(2) strategies
+	{name: "CompAnd", cfgs: [][3]int{{1, 2, 2}, {2, 3, 2}}, noRule: true, noDflt: true},
+	{name: "CompOr", cfgs: [][3]int{{1, 2, 2}, {2, 3, 2}}, noRule: true, noDflt: true},
+	{name: "CompMajority", cfgs: [][3]int{{1, 2, 2}}, noRule: true, noDflt: true},
+	{name: "CompSplit", cfgs: [][3]int{{1, 2, 2}, {2, 3, 2}}, noRule: true, noDflt: true},
+	{name: "DecoInverse", cfgs: [][3]int{{1, 2, 2}}, noRule: true, noDflt: true},
+	{name: "DecoNoLoss", cfgs: [][3]int{{1, 2, 2}, {2, 3, 2}}, noRule: true, noDflt: true},
+	{name: "DecoStopLoss", cfgs: [][3]int{{1, 2, 2}, {2, 3, 2}}, noRule: true, noDflt: true},
 }
 
 func css(h string, s stratSpec, cfg [3]int, rest ...int) sym.CaseSpec {
@@ -69,7 +78,7 @@ func css(h string, s stratSpec, cfg [3]int, rest ...int) sym.CaseSpec {
 	return c
 }
 
-const stratBounds = "every strategy of the harness table (all bundled base strategies, MACD-RSI) at 1-3 small period configurations (periods 1..4) and, where tractable, its default configuration"
+const stratBounds = "every strategy of the harness table (all bundled base strategies, MACD-RSI, and And/Or/Majority/Split/Inverse/No-Loss/Stop-Loss over the real MACD and RSI strategies) at 1-3 small period configurations (periods 1..4) and, where tractable, its default configuration"
 
 func init() {
 	grids["C05"] = &gridDef{
@@ -129,6 +138,9 @@ func init() {
 			}
 			var out []sym.CaseSpec
 			for _, s := range stratSpecs {
+				if s.noRule {
+					continue
+				}
 				for _, cfg := range s.cfgs {
 					m := dn
 					if s.heavy {
